@@ -19,6 +19,11 @@ claim("C09", T, "Bounded symbolic model checking of RetryingLockCollection::raw_
 claim("C11", T, "Bounded symbolic model checking with real unwinding semantics (MIR cleanup blocks, catch_unwind at intrinsic level): a user panic at a symbolic critical section of every shape/API/key style; after the caught unwind nothing is held, no release was unmatched, the key is obtainable/usable and the locks can be re-acquired; abort is detected as an outcome.", NOTE, "DESIGN.md section 3 (C11)")
 claim("C12", T, "Bounded symbolic fault injection decided by the solver: a one-shot panic at a symbolic raw-operation index (every operation of the call incl. rollback and unwind handlers) and the persistent fault classes of tests/evil_*.rs at symbolic positions; oracle = the statement (panic reaches caller, nothing else leaked, no foreign release, faulted lock refuses acquisition). Genuine defects are listed in known_findings.json by role.", NOTE, "DESIGN.md section 3 (C12), section 5")
 
+claim("C06", T, "Bounded symbolic model checking of key histories: every sequence (length 3 quick / 4 thorough) over a 20-operation key-affecting vocabulary, with a ThreadKey::get() probe after each step compared with a one-boolean reference model; includes panics caught by the harness, leaked keys/guards and a second modelled thread.", NOTE, "DESIGN.md section 3 (C06)")
+claim("C07", T, "Bounded symbolic model checking of the checked constructors: member indices are symbolic and not constrained to be distinct, the oracle is 'some index occurs twice in the flattened leaf list'; z3 decides try_new().is_none() == oracle for all index vectors, incl. nested collections and wrappers listed twice.", NOTE, "DESIGN.md section 3 (C07)")
+claim("C08", T, "Bounded symbolic model checking: two sorting collections from two independent symbolic arrangements over the same universe; the recorded sequences of blocking raw acquisitions must order common locks identically, be increasing in address, be repeatable, and keep an owned group contiguous.", NOTE, "DESIGN.md section 3 (C08)")
+claim("C10", T, "Bounded symbolic model checking of poisoning histories against a three-valued reference model (must / may / must-not), with real unwinding; the statement's four poisoning routes, clear_poison and all observing acquisitions are covered for Poisonable<Mutex|RwLock> alone and inside boxed/ref/retrying collections.", NOTE, "DESIGN.md section 3 (C10)")
+
 if __name__ == "__main__":
     m = write()
     print("claimed:", [c["property_id"] for c in m["checks"]])
